@@ -26,6 +26,8 @@ def run(tier, acc):
     # cl22: fixed corpus
     res, cs = cc.drive(acc, "cl22", 120 if tier == "quick" else 600, 3, "core", ["cl22"], fixed_seed=22)
     acc.violations += cc.records("C01", res, cs, {"bad"})
+    res, cs = cc.drive(acc, "ladder", 10 if tier == "quick" else 100, 2, "ladder", CLEAN)
+    acc.violations += cc.records("C01", res, cs, {"bad"})
     acc.nontrivial = sum(v for k, v in acc.counts.items() if k.endswith("_ok"))
 
 
